@@ -73,7 +73,7 @@ func (d *driver) scenarioHeldAccessor(blocks []*block) {
 		}
 		base := openFDs(w.dir)
 		g := v.gate(w, b)
-		rec.start(g)
+		rec.start()
 		d.doOp(w, nil, "PutODSQ4", b, id)
 		acc, err := w.st.GetByHeight(d.ctx, b.H)
 		if err != nil {
@@ -90,6 +90,7 @@ func (d *driver) scenarioHeldAccessor(blocks []*block) {
 		} else {
 			d.doOp(w, nil, "RemoveODSQ4", b, id)
 		}
+		rec.arm(g)
 		done := d.opAsync(w, "PutODSQ4", b, id)
 		if !d.await(g.arrived, "the put reaching its Q4 gate", id) {
 			close(g.release)
@@ -141,8 +142,9 @@ func (d *driver) scenarioStaleServingCache(blocks []*block) {
 		base := openFDs(w.dir)
 		gR := newGate("removal after cache drop", func(e *event) bool { return e.Ev == "cache.removed" && e.H == b.H })
 		gL := newGate("loader opened the height link", func(e *event) bool { return e.Ev == "ods.open" && e.Path == w.linkPath(b) })
-		rec.start(gR, gL)
+		rec.start()
 		d.doOp(w, nil, "PutODSQ4", b, id)
+		rec.arm(gR, gL)
 		rmDone := d.opAsync(w, "RemoveODSQ4", b, id)
 		if !d.await(gR.arrived, "the removal reaching the point after the cache drop", id) {
 			close(gR.release)
